@@ -1,3 +1,4 @@
 import Spec.Checksum
 import Spec.Wsgi
 import Spec.State
+import Spec.NumDB
